@@ -349,7 +349,24 @@ Inductive case :=
 | KHist1 (flip : bool) (sn : bool) (vals : list Q) (mask : list bool) (sc : Q) (fs0 : fs1) (steps : list stepQ)
          (obs : list (obsvQ Q obs1))
 | KHistM2 (flip : bool) (mask : list (list bool)) (sc : Q * Q) (fs0 : fs2) (steps : list stepQ) (obs : list (obsvQ (list Q) obsm2))
-| KHistM1 (flip : bool) (mask : list bool) (sc : Q) (fs0 : fs1) (steps : list stepQ) (obs : list (obsvQ Q obsm1)).
+| KHistM1 (flip : bool) (mask : list bool) (sc : Q) (fs0 : fs1) (steps : list stepQ) (obs : list (obsvQ Q obsm1))
+(* phase 3 -- the READERS alone, on any file system (files written earlier by other objects / other classes, foreign
+   files with several HDUs), with a pixel_scales argument that is independent of what the header says:
+   cls.from_fits(file_path = p, pixel_scales = sc, hdu = k [, invert = inv]) *)
+| KRead2 (flip : bool) (kd : kind2) (fs : fs2) (p : path) (sc : Q * Q) (k : Z) (r : fres obs2)
+| KReadM2 (flip : bool) (fs : fs2) (p : path) (sc : Q * Q) (k : Z) (inv : bool) (r : fres obsm2)
+| KRead1 (fs : fs1) (p : path) (sc : Q) (k : Z) (r : fres obs1)
+| KReadM1 (fs : fs1) (p : path) (sc : Q) (k : Z) (r : fres obsm1).
+
+Definition read2 (flip : bool) (kd : kind2) (fs : fs2) (p : path) (sc : Q * Q) (k : Z) : fres obs2 :=
+  observe2 (match kd with
+            | KArray => (Array2D_from_fits (O := QOps)) flip fs p sc k
+            | KKernel => (Kernel2D_from_fits (O := QOps)) flip fs p k sc false
+            end).
+Definition readm2 (flip : bool) (fs : fs2) (p : path) (sc : Q * Q) (k : Z) (inv : bool) : fres obsm2 :=
+  observem2 ((Mask2D_from_fits (O := QOps)) flip fs p sc k None inv).
+Definition read1 (fs : fs1) (p : path) (sc : Q) (k : Z) : fres obs1 := observe1 ((Array1D_from_fits (O := QOps)) fs p sc k).
+Definition readm1 (fs : fs1) (p : path) (sc : Q) (k : Z) : fres obsm1 := observem1 ((Mask1D_from_fits (O := QOps)) fs p sc k).
 
 Definition init_state {S X} (s : S) (flip : bool) (fs : fitsfs Q X) : @hstate QOps S X := @mkhst QOps S X s s true flip fs.
 Definition is_kernel (kd : kind2) : bool := match kd with KKernel => true | KArray => false end.
@@ -369,6 +386,10 @@ Definition agree (c : case) : bool :=
       list_eqb (obsv_eqb row_eqb obsm2_eqb) (hrun (class_mask2 (O := QOps) sc) steps (init_state (@mkmask2 QOps mask sc) flip fs0)) obs
   | KHistM1 flip mask sc fs0 steps obs =>
       list_eqb (obsv_eqb qeq obsm1_eqb) (hrun (class_mask1 (O := QOps) sc) steps (init_state (@mkmask1 QOps mask sc) flip fs0)) obs
+  | KRead2 flip kd fs p sc k r => fres_eqb obs2_eqb (read2 flip kd fs p sc k) r
+  | KReadM2 flip fs p sc k inv r => fres_eqb obsm2_eqb (readm2 flip fs p sc k inv) r
+  | KRead1 fs p sc k r => fres_eqb obs1_eqb (read1 fs p sc k) r
+  | KReadM1 fs p sc k r => fres_eqb obsm1_eqb (readm1 fs p sc k) r
   end.
 
 (* ------------------------------------------------------------------ verdict of the SPECIFICATION on the observations.
@@ -470,9 +491,32 @@ Definition lclass_mask1 (sc : Q) : lclass (list bool) Q obsm1 :=
     (fun g r => fres_eqb obsm1_eqb r (FOk (g, sc)))
     is_index_error.
 
+(* what a reader must return, as a function of the file alone: FileNotFoundError without a file, IndexError outside the
+   HDU list (python indexing), else [ok first_hdu selected_hdu result] *)
+Definition is_not_found {A} (r : fres A) : bool := match r with FRaise FileNotFound => true | _ => false end.
+Definition read_spec {X R} (fs : fitsfs Q X) (p : path) (k : Z) (ok : hdu Q X -> hdu Q X -> fres R -> bool) (r : fres R) : bool :=
+  match lookup (files fs) p with
+  | None => is_not_found r
+  | Some hl => match py_nth hl k, hl with
+               | Some h, h0 :: _ => ok h0 h r
+               | _, _ => is_index_error r
+               end
+  end.
+Definition unflip {X} (flip : bool) (d : list X) : list X := if flip then rev d else d.
+Definition qbool (v : Q) : bool := negb (qeq v 0).
+
 Definition spec_ok (c : case) : bool :=
   match c with
   | KBase c => C16.spec_ok c
+  | KRead2 flip kd fs p sc k r =>
+      read_spec fs p k (fun h0 h r => let d := unflip flip (hdata h) in
+                                      obs2_spec r d (all_false2 d) sc (decode2 (hhdr h0)) (decode2 (hhdr h))) r
+  | KReadM2 flip fs p sc k inv r =>
+      read_spec fs p k (fun _ h r => fres_eqb obsm2_eqb r (FOk (map (map (fun v => xorb inv (qbool v))) (unflip flip (hdata h)), sc))) r
+  | KRead1 fs p sc k r =>
+      read_spec fs p k (fun h0 h r => obs1_spec r (hdata h) (all_false1 (hdata h)) sc (decode1 (hhdr h0)) (decode1 (hhdr h))) r
+  | KReadM1 fs p sc k r =>
+      read_spec fs p k (fun _ h r => fres_eqb obsm1_eqb r (FOk (map qbool (hdata h), sc))) r
   | KHist2 nbo flip kd sn vals mask sc fs0 steps obs =>
       negb (shape2_ok vals mask) ||
       let g := zf2 mask vals in hspec (lclass_arr2 mask sc) row_eqb steps g g true fs0 obs
